@@ -13,12 +13,24 @@ Definition v2_clean (d : v2doc) : Prop :=
 
 Lemma decode_no_panic : forall g d, decode g d <> Panic.
 Proof.
-  intros g d. destruct d as [| |n|d1|d2]; cbn [decode]; try discriminate.
+  intros g d. unfold decode. destruct d as [| |n|d1|d2|[|]]; cbn [decode_gen]; try discriminate.
   - destruct (negb (d1_fields_ok d1)); [discriminate|]. destruct (d1_default d1); discriminate.
   - destruct (negb (d2_fields_ok d2)); [discriminate|].
     destruct (g && existsb snd (d2_relays d2)); [discriminate|].
     destruct (g && existsb _ (d2_proposers d2)); [discriminate|].
     destruct (g && existsb _ (d2_proposers d2)); discriminate.
+Qed.
+
+(* whatever the decoder variant, decoding itself never panics *)
+Lemma decode_gen_no_panic : forall g v d, decode_gen g v d <> Panic.
+Proof.
+  intros g v d. destruct d as [| |n|d1|d2|[|]]; cbn [decode_gen]; try discriminate.
+  - destruct (negb (d1_fields_ok d1)); [discriminate|]. destruct (d1_default d1); discriminate.
+  - destruct (negb (d2_fields_ok d2)); [discriminate|].
+    destruct (g && existsb snd (d2_relays d2)); [discriminate|].
+    destruct (g && existsb _ (d2_proposers d2)); [discriminate|].
+    destruct (g && existsb _ (d2_proposers d2)); discriminate.
+  - destruct v; discriminate.
 Qed.
 
 Lemma existsb_false_forallb {A} (f g : A -> bool) (l : list A) :
@@ -30,7 +42,7 @@ Qed.
 
 Lemma decode_v2_clean : forall d c, decode true (DV2 d) = Ok c -> c = CV2 d /\ v2_clean d.
 Proof.
-  intros d c. cbn [decode andb].
+  intros d c. unfold decode. cbn [decode_gen andb].
   destruct (negb (d2_fields_ok d)); [discriminate|].
   destruct (existsb snd (d2_relays d)) eqn:E1; [discriminate|].
   destruct (existsb (fun p => match p with None => true | Some _ => false end) (d2_proposers d)) eqn:E2; [discriminate|].
@@ -43,8 +55,8 @@ Qed.
 
 Lemma decode_rejects_null : forall d, doc_has_null d = true -> decode true d = Err CEDecode.
 Proof.
-  intros d H. destruct d as [| |n|d1|d2]; cbn in H; try discriminate.
-  cbn [decode andb]. destruct (negb (d2_fields_ok d2)); [reflexivity|].
+  intros d H. destruct d as [| |n|d1|d2|b]; cbn in H; try discriminate.
+  unfold decode. cbn [decode_gen andb]. destruct (negb (d2_fields_ok d2)); [reflexivity|].
   destruct (existsb snd (d2_relays d2)) eqn:E1; [reflexivity|]. cbn [orb] in H.
   destruct (existsb (fun p => match p with None => true | Some _ => false end) (d2_proposers d2)) eqn:E2; [reflexivity|].
   destruct (existsb (fun p => match p with None => false | Some p => has_null_prelay p end) (d2_proposers d2)) eqn:E3; [reflexivity|].
@@ -123,15 +135,16 @@ Proof. intros a k. discriminate. Qed.
 
 Lemma decode_safe : forall d c, decode true d = Ok c -> safe (Some c).
 Proof.
-  intros d c H a k. destruct d as [| |n|d1|d2]; try discriminate.
-  - cbn [decode] in H. destruct (negb (d1_fields_ok d1)); [discriminate|]. destruct (d1_default d1); [|discriminate].
+  intros d c H a k. destruct d as [| |n|d1|d2|[|]]; try discriminate.
+  - unfold decode in H. cbn [decode_gen] in H. destruct (negb (d1_fields_ok d1)); [discriminate|]. destruct (d1_default d1); [|discriminate].
     injection H as <-. apply lookup1_guarded.
   - apply decode_v2_clean in H as [-> Hc]. cbn [lookup]. apply lookup2_clean. exact Hc.
 Qed.
 
 Lemma refresh_safe : forall cur d, safe cur -> safe (refresh true cur d).
 Proof.
-  intros cur d H. unfold refresh. destruct (decode true d) as [c|e|] eqn:E; try exact H. eapply decode_safe; eassumption.
+  intros cur d H. unfold refresh, refresh_gen. fold (decode true d).
+  destruct (decode true d) as [c|e|] eqn:E; try exact H. eapply decode_safe; eassumption.
 Qed.
 
 Lemma refresh_all_safe : forall ds cur, safe cur -> safe (refresh_all true cur ds).
@@ -140,10 +153,10 @@ Proof.
 Qed.
 
 Lemma refresh_rejected : forall g cur d e, decode g d = Err e -> refresh g cur d = cur.
-Proof. intros g cur d e H. unfold refresh. rewrite H. reflexivity. Qed.
+Proof. intros g cur d e H. unfold refresh, refresh_gen. fold (decode g d). rewrite H. reflexivity. Qed.
 
 Lemma refresh_accepted : forall g cur d c, decode g d = Ok c -> refresh g cur d = Some c.
-Proof. intros g cur d c H. unfold refresh. rewrite H. reflexivity. Qed.
+Proof. intros g cur d c H. unfold refresh, refresh_gen. fold (decode g d). rewrite H. reflexivity. Qed.
 
 (* the witnesses of the defect repaired by 776ef9a: without the null checks a null entry is
    accepted and the lookup dereferences it *)
@@ -173,3 +186,76 @@ Lemma v1_nil_guard_necessary :
   let d := {| d1_fields_ok := true; d1_proposers := [(1, None)]; d1_default := None |} in
   lookup false (Some (CV1 d)) 0 1 = Panic /\ lookup true (Some (CV1 d)) 0 1 = Ok [].
 Proof. repeat split; reflexivity. Qed.
+
+(* ------------------------------------------------------------------------------------------- *)
+(* Bare documents: a JSON value that is not an object.                                          *)
+
+(* Every bare document is rejected by the decoder as it is: `null` by the v1 decoder ("default
+   config missing"), everything else by the metadata probe. *)
+Lemma bare_rejected : forall g b, decode g (DBare b) = Err CEDecode.
+Proof. intros g [|]; reflexivity. Qed.
+
+(* ... so it leaves the configuration exactly as it was, whatever came before, and the answers to
+   every lookup are those of the configuration before it. *)
+Lemma bare_keeps_previous : forall b cur a k,
+  refresh true cur (DBare b) = cur /\
+  lookup true (refresh true cur (DBare b)) a k = lookup true cur a k.
+Proof. intros b cur a k. rewrite (refresh_rejected true cur (DBare b) CEDecode (bare_rejected true b)). split; reflexivity. Qed.
+
+(* The accepted configurations of the code as it is are never the nil pointer. *)
+Lemma decode_never_nil : forall g d, decode g d <> Ok CNilV1.
+Proof.
+  intros g d. unfold decode. destruct d as [| |n|d1|d2|[|]]; cbn [decode_gen]; try discriminate.
+  - destruct (negb (d1_fields_ok d1)); [discriminate|]. destruct (d1_default d1); discriminate.
+  - destruct (negb (d2_fields_ok d2)); [discriminate|].
+    destruct (g && existsb snd (d2_relays d2)); [discriminate|].
+    destruct (g && existsb _ (d2_proposers d2)); [discriminate|].
+    destruct (g && existsb _ (d2_proposers d2)); discriminate.
+Qed.
+
+(* Decoding by value is necessary: a decoder that lets encoding/json allocate the configuration
+   accepts exactly one more document, `null`, as the nil pointer; the interface test of
+   fetchExecutionConfig does not see it, it replaces whatever configuration there was, and from
+   then on EVERY lookup panics (until a later document is accepted). *)
+Lemma by_value_necessary :
+  (forall g d c, decode_gen g false d = Ok c -> c = CNilV1 \/ decode_gen g true d = Ok c) /\
+  (forall g d, decode_gen g false d = Ok CNilV1 <-> d = DBare BNull) /\
+  (forall g cur a k, lookup true (refresh_gen g false cur (DBare BNull)) a k = Panic) /\
+  (forall g cur a k, lookup true (refresh_gen g true cur (DBare BNull)) a k = lookup true cur a k).
+Proof.
+  split; [|split; [|split]].
+  - intros g d c H. destruct d as [| |n|d1|d2|[|]]; cbn [decode_gen] in *; try discriminate; auto.
+    injection H as <-. auto.
+  - intros g d. split.
+    + destruct d as [| |n|d1|d2|[|]]; cbn [decode_gen]; try discriminate; try reflexivity.
+      * destruct (negb (d1_fields_ok d1)); [discriminate|]. destruct (d1_default d1); discriminate.
+      * destruct (negb (d2_fields_ok d2)); [discriminate|].
+        destruct (g && existsb snd (d2_relays d2)); [discriminate|].
+        destruct (g && existsb _ (d2_proposers d2)); [discriminate|].
+        destruct (g && existsb _ (d2_proposers d2)); discriminate.
+    + intros ->. reflexivity.
+  - intros g cur a k. reflexivity.
+  - intros g cur a k. reflexivity.
+Qed.
+
+(* ------------------------------------------------------------------------------------------- *)
+(* The registration round that follows a refresh.                                               *)
+
+Lemma registration_safe : forall c, safe c -> is_ok (registration_round c) = true.
+Proof.
+  intros c H. unfold registration_round. specialize (H reg_account reg_pubkey).
+  destruct (lookup true c reg_account reg_pubkey); [reflexivity | reflexivity | congruence].
+Qed.
+
+Lemma registration_none : registration_round None = Ok [].
+Proof. reflexivity. Qed.
+
+(* over every history of documents the round after the last refresh completes *)
+Lemma registration_no_panic : forall ds, is_ok (registration_round (refresh_all true None ds)) = true.
+Proof. intro ds. apply registration_safe. apply refresh_all_safe. exact safe_none. Qed.
+
+(* with the allocating decoder the round after a `null` document panics *)
+Lemma registration_by_value_necessary : forall g cur,
+  registration_round (refresh_gen g false cur (DBare BNull)) = Panic /\
+  registration_round (refresh_gen g true cur (DBare BNull)) = registration_round cur.
+Proof. intros g cur. split; reflexivity. Qed.
